@@ -772,7 +772,7 @@ def eval_sys_read(klong):
         f.at_eof = True
         return None
     else:
-        i,a = kg_read_array(r, 0, klong._backend, module=klong.current_module())
+        i,a = kg_read_array(r, 0, klong._backend, module=klong.current_module(), read_neg=True)
         f.raw.seek(k+i,0)
         return _read_dictionaries(a)
 
